@@ -37,9 +37,51 @@ class C09(C.ProgramDiff):
                    'calling an unbound variable or a number is unspecified (discarded)',
                    'findall/3 with non-ground instances: neither the ISO copy reading nor the engine\'s sharing is asserted']
     cases = {'quick': 2400, 'thorough': 40000}
+    split_scripts = True
     cfg = gen.with_cfg(control=frozenset(['cut', ';', 'ite', 'not']), meta=True, library=True)
     extra_clauses = HELPERS + WIDE
     dyn_facts = True
+
+    def decode(self, src):
+        case = super().decode(src)
+        if src.n(8) == 5:
+            # a predicate whose definition is combined from two scripts, the earlier part committing with a cut: the
+            # meta-call must go on with the later part exactly as the plain call does
+            clauses = list(case['clauses'])
+            X = ('v', 'K1')
+            unary = [h[1] for h, _ in clauses if h[0] == 'f' and len(h[2]) == 1 and h[1] not in ('do', 'do1')]
+            g = ('call', ('f', src.pick(unary), (X,))) if unary and src.n(2) else ('call', ('f', '=', (X, ('a', src.pick(gen.Cfg.atoms)))))
+            first = [(('f', 'cs', (X,)), (',', g, ('cut',)))]
+            if src.n(2):
+                first.insert(0, (('f', 'cs', (('a', src.pick(gen.Cfg.atoms)),)), ('true',)))
+            second = [(('f', 'cs', (('a', src.pick(gen.Cfg.atoms)),)), ('true',)) for _ in range(1 + src.n(2))]
+            case['clauses'] = clauses + first + second
+            case['split'] = len(clauses) + len(first)
+            case['text'] = gen.program_text(case['clauses'])
+            Q0, Q1 = gen.QVARS[0], gen.QVARS[1]
+            goal = ('f', 'cs', (Q0,))
+            qs = [('f', 'call', (('a', 'cs'), Q0)), ('f', 'do', (goal,)), ('f', 'all', (Q0, goal, Q1)), goal,
+                  ('f', 'do1', (goal,)), ('f', 'ap', (('a', 'cs'), Q0))]
+            i = src.n(len(qs))
+            case['queries'] = [qs[i], qs[(i + 1) % len(qs)], qs[(i + 2) % len(qs)]]
+        return case
+
+    def derived_queries(self, q, ref):
+        # findall through all/3 with an unbound bag: ask again with the bag bound to a strict prefix of the result (must
+        # fail), to the result itself, and to the result with its last element / its tail left open
+        from ..terms import mklist
+        if not (q[0] == 'f' and q[1] == 'all' and len(q[2]) == 3 and q[2][2][0] == 'v' and len(ref) == 1):
+            return []
+        bag = ref[0][2][2]
+        items = list_items(bag)
+        if items is None or len(items) < 2 or len(items) > 12:
+            return []
+        t, g = q[2][0], q[2][1]
+        F = ('v', 'Q7')
+        out = [('f', 'all', (t, g, mklist(items[:-1]))), ('f', 'all', (t, g, mklist(items[:1]))),
+               ('f', 'all', (t, g, mklist(items[:-1] + [F]))), ('f', 'all', (t, g, mklist(items[:-1], F))),
+               ('f', 'all', (t, g, mklist(items)))]
+        return out
 
     def gen_query(self, src, preds, clauses):
         k = src.n(7)
@@ -209,6 +251,15 @@ class C09(C.ProgramDiff):
             classes.add(e)
         return bool(ev & {'meta-goal-from-variable', 'once-fails', 'findall-0', 'findall-many'}) or \
             (bool(ev & {'call/1', 'call/2', 'call/3'}) and len(ref) != 1)
+
+
+def list_items(t):
+    """items of a proper list term, or None"""
+    out = []
+    while t[0] == 'f' and t[1] == '.' and len(t[2]) == 2:
+        out.append(t[2][0])
+        t = t[2][1]
+    return out if t == ('a', '[]') else None
 
 
 def prolog_only(t):
